@@ -5,7 +5,7 @@ import types
 from props.common import BASE_TRUSTED
 
 PROP = 'C09'
-KERNELS = ['wf_ref_sphere', 'wf_image_to_xp', 'wf_path_length', 'wf_tilt_xy', 'wf_tilt_dist', 'wf_field_data',
+KERNELS = ['wf_ref_sphere', 'wf_image_to_xp', 'wf_get_path_length', 'wf_tilt_xy', 'wf_tilt_dist', 'wf_field_data',
            'wf_opd_rms', 'wf_rms_vs_field']
 THEOREMS = ['C09_' + n for n in (
     'ref_sphere_through_pupil ref_sphere_needs_single_ray image_to_xp_on_sphere image_to_xp_branch '
@@ -14,7 +14,8 @@ THEOREMS = ['C09_' + n for n in (
     'finite_object_common_point height_fields_no_correction chief_sample_zero field_data_from_samples '
     'field_data_chief_zero opd_definition_infinite_partial opd_definition_finite_partial '
     'sample_points_on_reference_sphere rms_is_rms rms_nonneg rms_zero_iff fan_is_slice '
-    'opd_difference_is_mean_abs_dev opd_difference_nonneg opd_difference_constant').split()]
+    'opd_difference_is_mean_abs_dev opd_difference_nonneg opd_difference_constant image_to_xp_miss '
+    'image_to_xp_finite_sound generate_data_entry rms_vs_field_table rms_vs_field_shape').split()]
 COQ_TARGETS = ['Model/M_C09.vo', 'Model/Trace.vo', 'Model/Paraxial.vo']
 TRUSTED_BASE = BASE_TRUSTED + [
     'translator extension tools/py2coq_c09.py (record rows x[-1, :], .size, (Hx, Hy) pairs, wavefront data cells, '
@@ -43,8 +44,9 @@ PARTIAL = [
     'the optical path recorded by the trace (sum of n*length) is C02\'s theorem, here a hypothesis of the model (ropd)',
     'exact zero for the chief ray is proved over the reals (and holds bit-for-bit in binary64 through closed-form surfaces: '
     'checked by the oracle); through Newton-iterated surfaces it holds to the stopping tolerance only',
-    'RmsWavefrontErrorVsField._rms_wavefront_error and OPD_difference: the regenerated kernel / hand model are checked against '
-    'the implementation; the table-filling loop itself has no theorem (rms_is_rms covers each entry\'s formula)',
+    'OPD_difference: the distribution / weight selection (GaussianQuadrature symmetric or not) is an input of the hand model; '
+    'that RmsWavefrontErrorVsField and OPDFan hand their documented fields / cross distribution to Wavefront is checked by '
+    'correspondence (rms_fields, cross, linspace models), not proved',
     'x fields and finite objects with angular fields are outside the property\'s quantifier and are not checked '
     '(observed: the x tilt term has the opposite sign of the launch; a point source gets a plane-wave correction)',
 ]
@@ -147,7 +149,7 @@ def kernel_cases(ctx):
             except Exception as e:   # noqa
                 lst.append({'err': type(e).__name__})
     yield 'wf_image_to_xp', cases_t, {'pyres': py_t, 'tol': 1e-12}
-    yield 'wf_path_length', cases_p, {'pyres': py_p, 'tol': 1e-12}
+    yield 'wf_get_path_length', cases_p, {'pyres': py_p, 'tol': 1e-12}
 
     # --- _correct_tilt in both call forms, and _generate_field_data after the trace
     def tilt_optic(ft, maxx, maxy, epd):
